@@ -44,10 +44,41 @@ def f_canon(bits64):
 
 
 # ----------------------------------------------------------------------------- terms
-def nlist(h):
+BIGS = []   # [(hex, coq variable)] of let-bound long byte strings (chunk-corpus stage)
+
+
+def lit(h):
     if len(h) > 64:
         return '(unhex "%s"%%string)' % h
     return "[" + ";".join(str(b) for b in bytes.fromhex(h)) + "]"
+
+
+def split_big(h, bigs):
+    """`h` as a Coq list expression in which every occurrence of a let-bound long string is its variable"""
+    parts, i = [], 0
+    while i < len(h):
+        best = None
+        for bh, var in bigs:
+            j = h.find(bh, i)
+            while j >= 0 and j % 2:
+                j = h.find(bh, j + 1)
+            if j >= 0 and (best is None or j < best[0]):
+                best = (j, bh, var)
+        if best is None:
+            parts.append(lit(h[i:]))
+            break
+        j, bh, var = best
+        if j > i:
+            parts.append(lit(h[i:j]))
+        parts.append(var)
+        i = j + len(bh)
+    return "(" + " ++ ".join(parts or ["[]"]) + ")%list"
+
+
+def nlist(h):
+    if BIGS and len(h) > 2000:
+        return split_big(h, BIGS)
+    return lit(h)
 
 
 def v2coq(j):
@@ -297,6 +328,107 @@ def eval_spread(ctx, name, exprs, shard):
     return res
 
 
+
+def big_eval(ctx, name, exprs, timeout=1500):
+    """one expression per coqc process, unlimited stack (vm_compute on 10^4..10^5-element lists), 12 in parallel"""
+    import subprocess
+    c.coq_makefile()
+    d = os.path.join(ctx.work, "eval_" + name)
+    os.makedirs(d, exist_ok=True)
+    for f in os.listdir(d):
+        os.remove(os.path.join(d, f))
+    files = []
+    for i, e in enumerate(exprs):
+        fn = os.path.join(d, "big_%d.v" % i)
+        with open(fn, "w") as f:
+            f.write(PRE + "Eval vm_compute in (%s).\n" % e)
+        files.append(fn)
+    res, running, pending = {}, [], list(enumerate(files))
+    while pending or running:
+        while pending and len(running) < 12:
+            i, fn = pending.pop(0)
+            p = subprocess.Popen(["bash", "-c", "ulimit -s unlimited; exec timeout %d coqc -noglob -Q %s CB -w none %s" % (timeout, c.COQ, fn)],
+                                 stdout=subprocess.PIPE, stderr=subprocess.STDOUT, cwd=d)
+            running.append((i, p))
+        i, p = running.pop(0)
+        out = p.communicate()[0].decode("utf-8", "replace")
+        m = __import__("re").search(r"=\s*\((true|false),\s*(true|false)\)", out)
+        res[i] = (m.group(1) == "true", m.group(2) == "true") if (p.returncode == 0 and m) else ("coqc failed", out[-400:])
+    return [res[i] for i in range(len(exprs))]
+
+
+def chunk_stage(ctx, binp, T, bump):
+    """Long strings spanning 3+ of the decoder's 4096-byte read chunks, multi-byte code points straddling the
+    first / second / several / all chunk boundaries: top-level text, byte strings, nested, indefinite-length
+    (segmented) text, and inside token types.  Every case: direct oracle on the implementation
+    (decode(encode v) = v, re-encoding stable, allocation); a subset also through the model."""
+    global BIGS
+    q = ctx.quick
+    rc, out = c.run_bin(binp, ["chunks", ctx.seed, 5 if q else 17, 1], timeout=1200)
+    ls = lines(out)
+    if rc != 0:
+        ctx.violation({"layer": "harness run", "mode": "chunks", "output": out[-800:]}, "chunk-corpus harness crashed", no_input=True)
+        return
+    cases = [x for x in ls if x["k"] == "chunk"]
+    # subset evaluated through the model (a 16 KiB string costs ~10 s of vm_compute): quotas per kind, distinct shapes
+    quota = {"text": 3, "bytes": 1, "nested": 1, "segmented": 2, "typed": 2} if q else {"text": 12, "bytes": 3, "nested": 4, "segmented": 8, "typed": 9}
+    maxchunks = 3 if q else 5
+    prefer = ["all", "first", "several", "second", "lastonly"]
+    chosen, seen = [], set()
+    for cs in sorted([x for x in cases if "big" in x], key=lambda x: prefer.index(x["shape"].split("/")[0])):
+        nch = int(cs["shape"].split("/")[-1])
+        key = (cs["kind"], cs["shape"].split("/")[0]) if q else (cs["kind"], cs["shape"])
+        if nch <= maxchunks and key not in seen and quota.get(cs["kind"], 0) > 0:
+            quota[cs["kind"]] -= 1
+            seen.add(key)
+            chosen.append(cs)
+    for cs in cases:
+        bump("chunk:" + cs["kind"])
+        brief = {k: (v if not isinstance(v, (str, list)) or len(str(v)) < 300 else str(v)[:120] + "...(%d chars)" % len(str(v))) for k, v in cs.items()}
+        T.case(["chunk", cs["kind"], cs["shape"], c.digest(cs["hex"])], cs.get("same") is True)
+        if "same" not in cs:
+            T.violation({"case": brief}, "cbor_encode failed on a long string (%s %s): %s" % (cs["kind"], cs["shape"], cs["hex"][:80]))
+            continue
+        if not cs["same"]:
+            # keep the full input in the replay file
+            T.violation({"case": cs, "theorem": "cbor_value_roundtrip (the model decodes this input back to the value)"},
+                        "decode(encode v) != v for a %d-byte %s with code points on read-chunk boundaries (%s): %s" % (
+                            cs["len"], cs["kind"], cs["shape"], cs["rt"]))
+            continue
+        if cs.get("reenc_same") is False:
+            T.violation({"case": brief}, "re-encoding of a decoded long string differs (%s %s)" % (cs["kind"], cs["shape"]))
+        if cs.get("peak", 0) > C0 + C1 * cs["len"]:
+            T.violation({"case": brief}, "decode of %d bytes allocated %d bytes" % (cs["len"], cs["peak"]))
+    exprs = []
+    for cs in chosen:
+        bigs = sorted(set(cs["big"]), key=len, reverse=True)
+        BIGS = [(h, "b%d" % i) for i, h in enumerate(bigs)]
+        lets = "".join('let %s := unhex "%s"%%string in ' % (v, h) for h, v in BIGS)
+        R = split_big(cs["hex"], BIGS)
+        if cs["kind"] == "typed":
+            body = ("let X := %s in let S := schema_of \"%s\"%%string in let R := %s in "
+                    "(match encode_typed S X with Some bs => bytes_eqb bs R | None => false end, "
+                    "match decode_typed S Fail R with Some y => xeqb y X | None => false end)") % (x2coq(cs["x"]), cs["ty"], R)
+        else:
+            encp = "true" if cs["kind"] == "segmented" else "bytes_eqb (encode V) R"
+            body = ("let V := %s in let R := %s in (%s, match run_top R with Some (v, _) => veqb v V | None => false end)"
+                    % (v2coq(cs["v"]), R, encp))
+        exprs.append(lets + body)
+        BIGS = []
+    res = big_eval(ctx, "chunks", exprs)
+    for cs, r in zip(chosen, res):
+        bump("chunk:model")
+        brief = {"kind": cs["kind"], "shape": cs["shape"], "len": cs["len"], "hex_prefix": cs["hex"][:64]}
+        if r[0] == "coqc failed":
+            ctx.violation({"layer": "model evaluation of a long string", "case": brief, "output": r[1]}, "coqc failed on a chunk-corpus case", no_input=True)
+        elif r != (True, True):
+            T.violation({"case": cs, "model_agrees": {"encode": r[0], "decode": r[1]}},
+                        "model and implementation differ on a %d-byte %s (%s): encode agrees=%s decode agrees=%s" % (
+                            cs["len"], cs["kind"], cs["shape"], r[0], r[1]))
+    ctx.notes["chunk_corpus"] = {"cases": len(cases), "through_model": len(chosen), "max_len": max([x.get("len", 0) for x in cases] or [0]),
+                                 "shapes": sorted({x["shape"].split("/")[0] for x in cases})}
+
+
 def lines(out):
     return [json.loads(l) for l in out.splitlines() if l.startswith("{")]
 
@@ -332,6 +464,8 @@ def run(ctx):
     def bump(k, n=1):
         dist[k] = dist.get(k, 0) + n
 
+    ctx.log("stage 0. long strings over many read chunks")
+    chunk_stage(ctx, binp, T, bump)
     ctx.log("stage 1. values")
     # ------------------------------------------------------------------ 1. values: encode on both sides
     nval = 250 if q else 1500
